@@ -554,7 +554,12 @@ def _to_shape_list(region_list, coordinate_system='fk5'):
         meta.update(region.visual)
 
         if reg_type == 'text':
-            meta['text'] = meta.get('text', meta.pop('label', ''))
+            # the string of a text region is its ``text`` attribute; a
+            # label that merely repeats it (as the reader sets it) is
+            # not written a second time
+            if meta.get('label', '') == region.text:
+                meta.pop('label', None)
+            meta['text'] = region.text
 
         include = region.meta.get('include', True)
 
